@@ -18,10 +18,19 @@ for k in ("VERIF_C20_ONLY", "VERIF_C20_WORKERS", "VERIF_C20_STAGES", "VERIF_C20_
         extra[k] = os.environ[k]
 thorough = chk.tier == "thorough"
 
+
+def monitor_trouble(rep):
+    """failures of the monitor's own plumbing (cannot create its layout, cannot build an archive) are not verdicts"""
+    bad = [f for f in (rep or {}).get("failures") or [] if f.get("class", "").startswith("monitor:")]
+    if bad:
+        core.broken("C20: monitor could not set up a case: %s %s" % (bad[0].get("class"), bad[0].get("summary", "")[:500]))
+
+
 # Part 1 (fixed probes = complete class x format x content matrix first, then random archives); no -race:
 # the extract functions are sequential and the race runtime makes archive building ~30x slower.
 rc, out, rep, _, _ = inpkg.run_inpkg(chk, inj, "./internal/crosscompile", "^TestVerifC20Extract$", race=False,
                                      timeout=2400 if thorough else 500, extra_env=extra)
+monitor_trouble(rep)
 inpkg.absorb(chk, rep, out, rc, "extract")
 
 # Part 2: lock hand-over probe + concurrent requests, under the race detector.
@@ -31,6 +40,7 @@ if not os.environ.get("VERIF_C20_ONLY"):
     # the race detector makes the test binary exit 66 even when the monitor recorded nothing; races are judged below
     if rep is not None and rc != 0 and not rep.get("failures") and races > 0:
         rc = 0
+    monitor_trouble(rep)
     inpkg.absorb(chk, rep, out, rc, "conc")
     # a report with a frame in a non-test source file of internal/crosscompile is a violation
     chk.cov["race_reports"] = races
@@ -45,4 +55,6 @@ if not os.environ.get("VERIF_C20_ONLY"):
             chk.violation("race-%d" % i, {"race.txt": r}, "[race:crosscompile] Go race detector: DATA RACE with a frame inside internal/crosscompile\n" + r[:1200])
         if mine and not theirs:
             core.broken("C20: the race detector reported a race that has no frame in internal/crosscompile sources (monitor bug):\n" + mine[0][:3000])
+if os.environ.get("VERIF_C20_ONLY") or os.environ.get("VERIF_C20_STAGES"):
+    chk.finish(floor_eval=1, floor_distinct=1)  # single-case replay / debugging run
 chk.finish(floor_eval=900, floor_distinct=300)
